@@ -5,7 +5,7 @@ From Coq Require Import ExtrOcamlBasic.
 From SonicV Require Import Base.Blocks Spec.Ref Spec.Num
   Model.Err Model.Bitmap Model.PrefixXor Model.Bracket Model.Escape Model.SkipStr Model.SkipNum
   Model.Skip Model.Number Model.Inplace Model.Visitor Model.Cas Model.Arc Model.ObjEq Model.Many
-  Model.Promote Model.Pretty Model.SerRoundTrip Model.NodeBudget Model.Latch.
+  Model.Promote Model.Pretty Model.SerRoundTrip Model.NodeBudget Model.Latch Model.SkipAll.
 Set Extraction KeepSingleton.
 Separate Extraction
   Spec.Ref Spec.Num
@@ -23,4 +23,5 @@ Separate Extraction
   Model.ObjEq.obj_eq Model.Many.rec Model.Promote.promote Model.Promote.get_first
   Model.Pretty.run Model.Pretty.calls Model.Pretty.pretty
   Model.NodeBudget.peak Model.NodeBudget.len
-  Model.Latch.latched Model.Latch.polls.
+  Model.Latch.latched Model.Latch.polls
+  Model.SkipAll.skip_text Model.SkipAll.skip_value.
